@@ -3,14 +3,15 @@ preprocessed map in the gradual constructor and the one-shot calculation)."""
 from props import C07
 
 EXPLANATION = (
-    "Decides two necessary clauses only. R1: for each of the four modes the gradual constructor "
+    "Decides three structural clauses only. R1: for each of the four modes the gradual constructor "
     "(IGameMode::gradual_difficulty) and the one-shot calculation (IGameMode::difficulty) start from the same "
     "map — both use their map parameter solely as receiver of convert_ref(own mode, difficulty.get_mods()) and "
     "both invoke the same set of &mut Beatmap preprocessors on the converted map under the same guards (followed "
     "through helpers). A gradual constructor that forgets a preprocessor passes the suite (its tests use no mods) "
     "and breaks the property for every play with that mod. R2: the set of Difficulty::get_* settings reachable from the "
     "one-shot calculation equals the set reachable from the gradual calculator's methods (passed_objects aside): a setting "
-    "consulted by only one side (e.g. the clock rate) makes the two disagree for every non-default value. Equality of the values per prefix (nth arithmetic, "
+    "consulted by only one side (e.g. the clock rate) makes the two disagree for every non-default value. R3: the gradual count state (mania NoteState, osu gradual "
+    "attribute counters) is written only by its per-object delta function or reset to zero, so no object is counted by a second formula. Equality of the values per prefix (nth arithmetic, "
     "count deltas) is numeric and NOT decided.")
 
 
@@ -38,5 +39,65 @@ def run(ctx):
                 gadt.split('::')[-1], g, sorted(set(grad[g]))[:2]))
         if a == b:
             ctx.ok('C02-R2', mode + ':settings', 'one-shot and gradual %s paths consult the same Difficulty settings: %s (passed_objects aside)' % (mode, sorted(a)))
+    r3_counters(ctx, F)
     ctx.not_decided('equality of the i-th gradual value with the one-shot value for passed_objects(i); number of values; '
                     'final value equals full calculation (arithmetic over runtime values)')
+
+
+# ---- R3: gradual count state changes only through its per-object delta function (or is reset to zero)
+COUNTERS = [
+    # (adt, fields, scope prefix of functions considered, label)
+    ('mania::difficulty::gradual::NoteState', ('curr_combo', 'n_hold_notes'), '', 'mania NoteState'),
+    ('osu::attributes::OsuDifficultyAttributes', ('n_circles', 'n_sliders', 'n_spinners', 'n_large_ticks', 'max_combo'),
+     'osu::difficulty::gradual', 'osu gradual attribute counters'),
+]
+
+
+def r3_counters(ctx, F):
+    import fieldidx
+    import prov
+    for adt, fields, scope, label in COUNTERS:
+        if adt not in F.adts:
+            ctx.violation('C02-R3', 'anchor-missing:' + label, 'type %s not found' % adt)
+            continue
+        writes = []
+        for fld in fields:
+            for a in fieldidx.accesses(F, adt, fld):
+                fn = a['fn']
+                if a['kind'] not in ('assign', 'agg-init'):
+                    continue
+                if scope and not (fn.path.startswith(scope) or fn.path.startswith('<' + scope)):
+                    continue
+                if fn.impl_trait in ('std::default::Default', 'std::clone::Clone'):
+                    continue
+                st = a.get('stmt')
+                if st is None:
+                    continue
+                P = prov.prov_of(fn)
+                idx = fn.blocks[a['bb']]['s'].index(st)
+                if a['kind'] == 'assign':
+                    v = P.rvalue(st['rv'], a['bb'], idx)
+                else:
+                    rv = st['rv']
+                    v = P.operand(rv['ops'][rv['fields'].index(fld)], a['bb'], idx)
+                # self-referential increment?
+                incr = any(n[0] == 'binop' and n[1] in ('Add', 'AddWithOverflow') for n in prov.walk(v, limit=60)) and \
+                    any(n[0] == 'field' and n[2] == fld for n in prov.walk(v, limit=60))
+                writes.append((fn, fld, v, incr, a['line']))
+        delta_fns = sorted({w[0].path for w in writes if w[3]})
+        if not delta_fns:
+            ctx.violation('C02-R3', label + ':no-delta', 'no function increments the %s per object' % label)
+            continue
+        bad = 0
+        for fn, fld, v, incr, line in writes:
+            if incr:
+                continue
+            sv = prov.strip(v)
+            zero = sv[0] == 'const' and sv[1].get('val') in ('0', 'false')
+            if not zero:
+                bad += 1
+                ctx.violation('C02-R3', '%s:%s:%s' % (label, fn.path, fld), '%s writes %s.%s = `%s` directly instead of going through the per-object delta function(s) %s: the '
+                              'gradual count for that object can differ from what the one-shot calculation counts' % (fn.path, adt.split('::')[-1], fld, prov.show(sv, maxdepth=4), delta_fns),
+                              fn.where(line))
+        if not bad:
+            ctx.ok('C02-R3', label, '%s: %d write(s); all non-reset writes are increments inside %s' % (label, len(writes), delta_fns))
